@@ -78,6 +78,24 @@ def _run_job(job):
                     d.update(status="refuted", inputs=_jsonable(vals), backend=inst.backend + "+native-sampling",
                              replay={"reproduced": True, "detail": detail, "how": "solver undecided; failing input found by running the harness natively on sampled inputs"})
             out.append(d)
+        if rep.errors and not any(d["status"] == "refuted" for d in out):
+            # the engine could not interpret the code as it is now: fall back to native runs of the same harness on sampled inputs,
+            # over the case combinations the exploration reached (plus the preset); only a witnessed failure counts
+            import re as _re
+
+            case_sets = [dict(preset or {})]
+            for e in rep.errors:
+                m = _re.search(r"cases=(\{.*?\})(?::|$)", e)
+                if m:
+                    try:
+                        cs = eval(m.group(1), {"__builtins__": {}}, {})  # the repr of a dict of literals written by explore()
+                        if isinstance(cs, dict) and cs not in case_sets:
+                            case_sets.append(cs)
+                    except Exception:  # noqa
+                        pass
+            for label, cases, vals, detail in vc.native_fallback(ob.fn, case_sets[:12], seed=int(os.environ.get("VERIF_SEED", "0") or 0)):
+                out.append(dict(label=label, cases=_jsonable(cases), status="refuted", backend="native-fallback", seconds=0.0, inputs=_jsonable(vals), detail=detail,
+                                replay={"reproduced": True, "detail": detail, "how": "the interpreter could not execute the changed code; the harness was run natively on sampled inputs and this obligation failed"}))
         return dict(idx=idx, preset=_jsonable(preset), instances=out, paths=rep.paths, infeasible=rep.infeasible,
                     errors=rep.errors, notes=rep.notes, functions=rep.functions, covered=rep.covered, seconds=time.time() - t0)
     except BaseException as e:  # noqa
@@ -226,7 +244,10 @@ def run_property(prop, tier, seed, level, explanation="", trusted_base=(), worke
     t_start = time.time()
     load_contracts()
     known = load_known()
-    obs = [(i, ob) for i, ob in enumerate(registry.OBLIGATIONS) if prop in ob.props and (ob.tier == "quick" or tier == "thorough")]
+    from contracts.meta import DEPENDS
+
+    wanted = {prop, *DEPENDS.get(prop, ())}
+    obs = [(i, ob) for i, ob in enumerate(registry.OBLIGATIONS) if wanted & set(ob.props) and (ob.tier == "quick" or tier == "thorough")]
     comps = [(i, c) for i, c in enumerate(registry.COMPONENTS) if prop in c.props and (c.tier == "quick" or tier == "thorough")]
     only = os.environ.get("PYVC_ONLY")  # development only: run the obligations / components whose name contains this text
     if only:
